@@ -448,34 +448,30 @@ theorem foldlM_expect_unloc {β} (g : β → Num → Except Err β) (args : List
     | nil => rfl
     | cons y more => simp only [List.map_cons, expectNumber_unloc, foldNum_unloc]
 
-theorem cmpNum_go_unloc (op) (vs : List Value) : ∀ last,
-    cmpNum.go op last (vs.map Value.unloc) = cmpNum.go op last vs := by
+theorem cmpNum_go_unloc (op) (vs : List Value) : ∀ last acc,
+    cmpNum.go op last acc (vs.map Value.unloc) = cmpNum.go op last acc vs := by
   induction vs with
-  | nil => intro last; rfl
+  | nil => intro last acc; rfl
   | cons v vs ih =>
-    intro last
+    intro last acc
     simp only [List.map_cons, cmpNum.go, expectNumber_unloc]
     congr 1
     funext cur
-    split
-    · exact ih cur
-    · rfl
+    exact ih cur _
 
 @[simp] theorem cmpNum_unloc (op) (args : List Value) : cmpNum op (args.map Value.unloc) = cmpNum op args := by
   cases args with
   | nil => rfl
   | cons x rest => simp only [List.map_cons, cmpNum, expectNumber_unloc, cmpNum_go_unloc]
 
-theorem cmpBool_go_unloc (vs : List Value) : ∀ last,
-    cmpBool.go last (vs.map Value.unloc) = cmpBool.go last vs := by
+theorem cmpBool_go_unloc (vs : List Value) : ∀ last acc,
+    cmpBool.go last acc (vs.map Value.unloc) = cmpBool.go last acc vs := by
   induction vs with
-  | nil => intro last; rfl
+  | nil => intro last acc; rfl
   | cons v vs ih =>
-    intro last
+    intro last acc
     cases v <;> simp only [List.map_cons, cmpBool.go, Value.unloc]
-    split
-    · exact ih _
-    · rfl
+    exact ih _ _
 
 @[simp] theorem cmpBool_unloc (args : List Value) : cmpBool (args.map Value.unloc) = cmpBool args := by
   cases args with
